@@ -382,7 +382,9 @@ pub fn run_c14(p: &mut Prng, t: Tier, i: usize, sink: &mut Sink) {
     } else if i < SITES.len() + 2 {
         // bulk: enough scalars for the birthday bound of a 32-bit (SM9: ~36-bit) internal value
         let group = if i == SITES.len() { "sm9" } else { "sm2" };
-        let n = if group == "sm9" { t.pick(400_000, 2_000_000) } else { t.pick(25_000, 400_000) };
+        // SM9: past 2^22 candidates (a generator re-keyed that often has wrapped once);
+        // SM2 (a key generation each): past 2^20 candidates in the thorough tier only
+        let n = if group == "sm9" { t.pick(3_400_000, 20_000_000) } else { t.pick(60_000, 2_400_000) };
         w.exec(json!({"op":"c14.bulk","group":group,"n":n}));
         w.exec(json!({"op":"c14.stats","group":group}));
         sink.done(w);
